@@ -117,8 +117,9 @@ impl Agg {
     }
 }
 
-fn explore_all(tier: Tier, fams: &[plan::Family], drvs: &[Drv]) -> Agg {
+fn explore_all(tier: Tier, fams: &[plan::Family], drvs: &[Drv], shard: (usize, usize)) -> Agg {
     let t0 = std::time::Instant::now();
+    harness::set_grace_ms(tier.pick(30, 100));
     let mut agg = Agg::default();
     // 1. enumerate all plans (pure)
     let mut plans: Vec<Plan> = Vec::new();
@@ -128,13 +129,22 @@ fn explore_all(tier: Tier, fams: &[plan::Family], drvs: &[Drv]) -> Agg {
             if capped {
                 agg.caps.push(format!("plan enumeration of family {} capped", f.name));
             }
-            agg.plans.insert(format!("{VARIANT}:{}:{}", f.name, d.name()), json!(p.len()));
+            if shard.0 == 0 {
+                agg.plans.insert(format!("{VARIANT}:{}:{}", f.name, d.name()), json!(p.len()));
+            }
             plans.extend(p);
         }
+    }
+    if std::env::var_os("C20_DRIVERS").is_some() && shard.0 == 0 {
+        agg.caps.push(format!("C20_DRIVERS restricts the drivers to {:?}", drvs.iter().map(|d| d.name()).collect::<Vec<_>>()));
     }
     let timing = std::env::var_os("C20_TIMING").is_some();
     if timing {
         eprintln!("timing[{VARIANT}]: {} plans enumerated after {:.2}s", plans.len(), t0.elapsed().as_secs_f64());
+    }
+    // this process executes its share of the plans
+    if shard.1 > 1 {
+        plans = plans.into_iter().enumerate().filter(|(i, _)| i % shard.1 == shard.0).map(|(_, p)| p).collect();
     }
     // development aid: C20_STRIDE=k runs every k-th plan only (never exhaustive, recorded as a cap)
     if let Some(k) = std::env::var("C20_STRIDE").ok().and_then(|s| s.parse::<usize>().ok()) {
@@ -163,12 +173,20 @@ fn explore_all(tier: Tier, fams: &[plan::Family], drvs: &[Drv]) -> Agg {
             drop_worker();
             return;
         }
+        if let Some(path) = std::env::var_os("C20_DUMP") {
+            use std::io::Write;
+            let keys: Vec<&str> = r.vios.iter().map(|(k, _)| k.as_str()).collect();
+            let line = format!("{VARIANT} {}\t{}\t{}\n", p.describe(), r.sig, keys.join(","));
+            if let Ok(mut f) = std::fs::OpenOptions::new().create(true).append(true).open(path) {
+                let _ = f.write_all(line.as_bytes());
+            }
+        }
         {
             let mut a = shared.lock().unwrap();
             a.executions += 1;
             a.steps += r.steps;
-            for t in r.sig.split(' ') {
-                if TOKENS.contains(&t) {
+            for t in &r.tokens {
+                if TOKENS.contains(&t.as_str()) {
                     *a.counters.entry(t.to_string()).or_insert(0) += 1;
                 }
             }
@@ -222,7 +240,10 @@ fn explore_all(tier: Tier, fams: &[plan::Family], drvs: &[Drv]) -> Agg {
         for _ in 0..2 {
             let r = with_worker(|w| harness::execute(w, &f.plan));
             drop_worker();
-            if r.vios.iter().any(|(k, _)| k == key) {
+            // same oracle class (driver:oracle:...) counts: which of several symptoms of one defect shows
+            // first can depend on when a pool thread finishes
+            let class = |k: &str| k.split(':').take(2).collect::<Vec<_>>().join(":");
+            if r.vios.iter().any(|(k, _)| class(k) == class(key)) {
                 seen += 1;
             }
         }
@@ -262,15 +283,60 @@ fn pidfd_binary() -> Option<std::path::PathBuf> {
     p.exists().then_some(p)
 }
 
-/// sub-process mode of the pidfd build: only the families in which `wait` matters
+/// Worker-process mode: `e_c20 C20 <tier> --sub --shard i/n` executes every n-th plan (offset i)
+/// on one controller thread and prints its results as one JSON line. Separate processes (instead of
+/// threads) keep the descriptor tables apart: no other worker's fork can hold a copy of this
+/// worker's pipe ends, so EOF/EPIPE arrive exactly when the harness caused them.
+/// The pidfd build explores only the families in which `wait` matters.
 fn run_sub(args: vcore::Args) -> ! {
     let quick = args.tier == Tier::Quick;
-    let fams: Vec<plan::Family> =
-        families::families(args.tier).into_iter().filter(|f| f.name == "status" || (f.name == "output" && !quick)).collect();
-    let agg = explore_all(args.tier, &fams, &drivers());
+    let shard = args
+        .rest
+        .iter()
+        .position(|a| a == "--shard")
+        .and_then(|i| args.rest.get(i + 1))
+        .and_then(|s| s.split_once('/'))
+        .and_then(|(a, b)| Some((a.parse::<usize>().ok()?, b.parse::<usize>().ok()?)))
+        .unwrap_or((0, 1));
+    let fams: Vec<plan::Family> = families::families(args.tier)
+        .into_iter()
+        .filter(|f| VARIANT != "pidfd" || f.name == "status" || (f.name == "output" && !quick))
+        .collect();
+    let agg = explore_all(args.tier, &fams, &drivers(), shard);
     harness::cleanup_tmp();
     println!("{}", agg.to_json());
     std::process::exit(0)
+}
+
+/// run `n` worker processes of `bin` and collect their results
+fn run_shards(bin: &std::path::Path, tier: Tier, n: usize) -> Vec<Agg> {
+    let kids: Vec<_> = (0..n)
+        .map(|i| {
+            std::process::Command::new(bin)
+                .arg("C20")
+                .arg(tier.name())
+                .arg("--sub")
+                .arg("--shard")
+                .arg(format!("{i}/{n}"))
+                .env("VERIF_THREADS", "1")
+                .stdout(std::process::Stdio::piped())
+                .stderr(std::process::Stdio::inherit())
+                .spawn()
+                .unwrap_or_else(|e| vcore::machinery_error(&format!("cannot run {bin:?}: {e}")))
+        })
+        .collect();
+    kids.into_iter()
+        .enumerate()
+        .map(|(i, k)| {
+            let out = k.wait_with_output().unwrap_or_else(|e| vcore::machinery_error(&format!("waiting for worker {i} of {bin:?}: {e}")));
+            let text = String::from_utf8_lossy(&out.stdout);
+            let line = text.lines().rev().find(|l| l.starts_with('{')).unwrap_or("");
+            match vcore::serde_json::from_str::<vcore::Value>(line) {
+                Ok(v) => Agg::from_json(&v),
+                Err(e) => vcore::machinery_error(&format!("worker {i} of {bin:?} gave no result ({e}); exit status {:?}", out.status)),
+            }
+        })
+        .collect()
 }
 
 fn run_check(args: vcore::Args) -> ! {
@@ -289,34 +355,15 @@ fn run_check(args: vcore::Args) -> ! {
     for t in ["Rout:P", "Rout:short", "Rout:full", "Rout:eof", "Rerr:eof", "WI:P", "WI:full", "WT:P", "WT:exit0", "WT:exit255", "WT:sig15", "WT:sig9", "WO:P", "WO:sig9", "Cout:part", "CI:full"] {
         rep.must_reach(t);
     }
-    // the pidfd wait path (compio-process feature linux_pidfd, nightly-gated) lives in a second build;
-    // it explores the wait-related families as a sub-process, concurrently with this one
+    let n = vcore::threads();
+    let me = std::path::PathBuf::from(harness::exe_path());
     let mut wait_paths = vec![VARIANT.to_string()];
-    let sub = pidfd_binary().map(|bin| {
-        let child = std::process::Command::new(&bin)
-            .arg("C20")
-            .arg(tier.name())
-            .arg("--sub")
-            .stdout(std::process::Stdio::piped())
-            .stderr(std::process::Stdio::inherit())
-            .spawn()
-            .unwrap_or_else(|e| vcore::machinery_error(&format!("cannot run {bin:?}: {e}")));
-        (bin, child)
-    });
-    let mut aggs = vec![explore_all(tier, &fams, &drvs)];
-    harness::cleanup_tmp();
-    match sub {
-        Some((bin, child)) => {
-            let out = child.wait_with_output().unwrap_or_else(|e| vcore::machinery_error(&format!("waiting for {bin:?}: {e}")));
-            let text = String::from_utf8_lossy(&out.stdout);
-            let line = text.lines().rev().find(|l| l.starts_with('{')).unwrap_or("");
-            match vcore::serde_json::from_str::<vcore::Value>(line) {
-                Ok(v) => {
-                    aggs.push(Agg::from_json(&v));
-                    wait_paths.push("pidfd".into());
-                }
-                Err(e) => vcore::machinery_error(&format!("pidfd sub-run of {bin:?} gave no result ({e}); exit status {:?}", out.status)),
-            }
+    let mut aggs = run_shards(&me, tier, n);
+    // the pidfd wait path (compio-process feature linux_pidfd, nightly-gated) lives in a second build
+    match pidfd_binary() {
+        Some(bin) => {
+            aggs.extend(run_shards(&bin, tier, n));
+            wait_paths.push("pidfd".into());
         }
         None => rep.assume(
             "the pidfd wait path (compio-process feature linux_pidfd) was NOT explored in this run: no binary built with \
@@ -324,6 +371,7 @@ fn run_check(args: vcore::Args) -> ! {
         ),
     }
     let mut plans = serde_json_map();
+    let mut merged: BTreeMap<String, (String, vcore::Value, u64)> = BTreeMap::new();
     let mut machinery = Vec::new();
     let mut nondet = Vec::new();
     for a in &aggs {
@@ -344,11 +392,20 @@ fn run_check(args: vcore::Args) -> ! {
             rep.cap_hit(c);
         }
         for (key, what, replay, count) in &a.violations {
-            rep.violation(Violation { key: key.clone(), what: what.clone(), replay: replay.clone() });
-            rep.count(&format!("violating_executions[{key}]"), *count);
+            let e = merged.entry(key.clone()).or_insert_with(|| (what.clone(), replay.clone(), 0u64));
+            let len = |r: &vcore::Value| r["choices"].as_array().map(|a| a.len()).unwrap_or(usize::MAX);
+            if len(replay) < len(&e.1) {
+                e.0 = what.clone();
+                e.1 = replay.clone();
+            }
+            e.2 += *count;
         }
         machinery.extend(a.machinery.iter().cloned());
         nondet.extend(a.nondet.iter().cloned());
+    }
+    for (key, (what, replay, count)) in merged {
+        rep.count(&format!("violating_executions[{key}]"), count);
+        rep.violation(Violation { key, what, replay });
     }
     rep.extra(
         "bounds",
@@ -364,7 +421,9 @@ fn run_check(args: vcore::Args) -> ! {
             "drivers": drvs.iter().map(|d| d.name()).collect::<Vec<_>>(),
             "plans": plans,
             "wait_paths": wait_paths,
+            "worker_processes": n,
             "watchdog_ms": harness::WATCHDOG.as_millis() as u64,
+            "negative_observation_grace_ms": tier.pick(30, 100),
         }),
     );
     if !machinery.is_empty() {
